@@ -195,6 +195,12 @@ func isPoolNewFor(initFn, anon *ssa.Function, g *ssa.Global) bool {
 
 func (e *Engine) externInvoke(fr *Frame, st *State, key string, c *ssa.CallCommon, recv Value, args []Value, site ssa.Instruction) []Value {
 	switch {
+	case strings.HasSuffix(key, "PacketConn).WriteTo"):
+		// the connection: the frame is recorded in the ghost wire log; the call
+		// itself is total, does not touch modelled memory and may fail
+		e.wireSend(st, args[0].T)
+		e.assumedExterns["net.PacketConn.WriteTo: total, no effect on modelled state (frames are recorded in the ghost wire log)"] = true
+		return e.havocResults(st, c.Signature(), "writeto")
 	case strings.HasSuffix(key, "(error).Error"):
 		ts := freshTerms("errstr", types.Typ[types.String])
 		st.assume(wfAssumptions(ts, types.Typ[types.String], false))
